@@ -33,7 +33,7 @@ def condmerge_cases(maxn):
 
 
 def check_condmerge(chk, quick):
-    cases, r = condmerge_cases(3 if quick else 4)
+    cases, r = condmerge_cases(3 if quick else 5)
     chk.add_design(r, "CondMerge: all %d (n, mask, output vector, length deviation) cases enumerated by TLC" % len(cases))
     scs = []
     for i, c in enumerate(cases):
@@ -187,9 +187,13 @@ def run(tier, seed):
     rng = random.Random(seed)
     chk = dplib.DataPathCheck(PROP, tier, seed)
     ncases, ncomp = check_condmerge(chk, quick)
-    n = 220 if quick else 6000
+    n = 220 if quick else 20000
     scs = [illformed("v1" if i % 2 == 0 else "v2", rng, i) for i in range(n)]
     chk.run(scs, name="illformed")
+    # "an error from any call": the outcome x fault matrix (stream ends with every special error identity, store
+    # failures, empty positions, stops with a dead-letter write in flight) must neither panic nor hang either engine
+    per = 2 if quick else 40
+    chk.run(dpgen.matrix_scenarios("v1", rng, per, False) + dpgen.matrix_scenarios("v2", rng, per, False), name="matrix")
     chk.validate()
     return chk.finish(nontrivial,
                       "engine level: one ill-formed reply shape per scenario (28 shape classes x both engines x "
